@@ -163,7 +163,18 @@ fn exec_line<V: Variant>(
             Op::Fork(sfx, sub) => {
                 if depth < 4 {
                     rep.count("forks", 1);
-                    let mut fork = g.clone();
+                    // a fork is taken with clone() or with clone_from() onto a generator that
+                    // has already seen a few unrelated bytes
+                    let mut fork = if (prefix.len() + sfx.len()) % 3 == 0 {
+                        let mut other = V::new_gen();
+                        let junk = [0x5au8, 1, 2, 3, 4, 5, 6];
+                        other.update(&junk[..(prefix.len() + sub.len()) % 8]);
+                        other.clone_from(g);
+                        rep.count("forks_by_clone_from", 1);
+                        other
+                    } else {
+                        g.clone()
+                    };
                     let mut fprefix = prefix.clone();
                     exec_line::<V>(
                         &mut fork,
@@ -396,6 +407,7 @@ pub fn run(ctx: &Ctx, rep: &mut Report) {
             }
         }
         rep.floor("forks", 10);
+        rep.floor("forks_by_clone_from", 10);
         rep.floor("interleaved_finalize", 10);
     }
 }
